@@ -109,9 +109,17 @@ def run_check(prop, tier, seed, jobs, scale):
         key = (v["rig"], v["clause"], v["scenario"].get("fmt"), v["scenario"].get("variant"), v["scenario"].get("group"))
         groups.setdefault(key, []).append(v)
     attributed = {}
+    # representatives: up to 2 per (rig, clause, format) group, 12 in all (every
+    # violation when open findings exist, because each must then be attributed)
+    has_open = any(f.get("status") == "open" for f in known)
+    reps = []
     for key, vs in sorted(groups.items(), key=lambda kv: repr(kv[0])):
-        for v in vs[:3]:
-            sc_min = driver.minimise(v["scenario"], v["clause"])
+        reps.extend(vs[:(6 if has_open else 2)])
+    reps = reps[:(60 if has_open else 12)]
+    n_unminimised = sum(len(vs) for vs in groups.values()) - len(reps)
+    minimised = driver.minimise_many(reps, jobs)
+    if True:
+        for v, sc_min in zip(reps, minimised):
             res = driver.execute_scenario(sc_min)
             vv = [x for x in res["violations"] if x["clause"] == v["clause"]]
             if not vv:
@@ -139,6 +147,8 @@ def run_check(prop, tier, seed, jobs, scale):
             new_violations += 1
     for fid, paths in sorted(attributed.items()):
         print("note: %d explored violation(s) attributed to listed finding %s" % (len(paths), fid))
+    if n_unminimised > 0:
+        print("note: %d further violating runs of the same (rig, clause, format) groups were not minimised" % n_unminimised)
 
     wall = _walltime.time() - t0
     st = ex["stats"]
